@@ -75,7 +75,8 @@ def wrap(e):
         return True
     if e is sp.false:
         return False
-    if isinstance(e, (sp.logic.boolalg.Boolean, sp.core.relational.Relational)):
+    if isinstance(e, (sp.logic.boolalg.BooleanFunction, sp.logic.boolalg.BooleanAtom,
+                      sp.core.relational.Relational)) or type(e).__name__ == "_BoolSym":
         return SymBool(e)
     return Sym(e)
 
